@@ -321,10 +321,19 @@ func LiveMPD(a *asset, mpdName string, cfg *ResponseConfig, drmCfg *drm.DrmConfi
 		return nil, fmt.Errorf("splitPeriods: %w", err)
 	}
 
+	lastStart, err := lastPeriodStartTime(mpd)
+	if err != nil {
+		return nil, fmt.Errorf("lastPeriodStartTime: %w", err)
+	}
 	if cfg.liveMPDType() == segmentNumber {
-		mpd.PublishTime, err = lastPeriodStartTime(mpd)
-		if err != nil {
-			return nil, fmt.Errorf("lastPeriodStartTime: %w", err)
+		mpd.PublishTime = lastStart
+	} else {
+		// SegmentTimeline: a new Period appearing changes the MPD just as a new segment does
+		// (with an availabilityTimeOffset the two do not coincide)
+		lastStartS, err1 := lastStart.ConvertToSeconds()
+		publishS, err2 := mpd.PublishTime.ConvertToSeconds()
+		if err1 == nil && err2 == nil && lastStartS > publishS {
+			mpd.PublishTime = lastStart
 		}
 	}
 
